@@ -675,7 +675,7 @@ def eval_host(ctx, label, host, families, rng, stream="gen", want_ref=True, chec
         if r["unmodelled"]:
             continue
         res.coq_cases.append((f"{label}/{r['kind']}{k}", r["apps"], r["g0"], r["gfinal"], r["ext"],
-                              dict(events=r["events"], s0=r["s0"], sfinal=r["sfinal"])))
+                              dict(events=r["events"], s0=r["s0"], sfinal=r["sfinal"], tops=r.get("tops", [0]))))
         for d in check_cursor(r):
             res.ties.append(("iteration", f"{label}: {d}"))
     if not known_invalid:
@@ -761,7 +761,7 @@ def coq_replay(ctx, cases, shard=40):
         lines.append(f"Eval vm_compute in (map fst (filter (fun r => negb (snd r)) {lst})).")
         # the whole container state (imports, initializers, functions, node and value metadata) after the logged visits and
         # splices, as OV.Rewrite.State predicts it, against the state observed when the sweep ended
-        lst = clist([f"({i}, check_state {FLAGS[0]} ev_{i} g0_{i} s0_{i} gf_{i} sf_{i})" for i in range(len(chunk))])
+        lst = clist([f"({i}, check_state {FLAGS[0]} {clist([str(t) for t in chunk[i][5]['tops']])} ev_{i} g0_{i} s0_{i} gf_{i} sf_{i})" for i in range(len(chunk))])
         lines.append(f"Eval vm_compute in (filter (fun r => negb (Nat.eqb (fst (fst (snd r))) 0 && Nat.eqb (snd (snd r)) 0)) {lst}).")
         bodies.append("\n".join(lines))
         labels.append([c[0] for c in chunk])
